@@ -56,6 +56,26 @@ pub fn r_ext_mul(a: &[u64], b: &[u64], w: u64) -> Vec<u64> {
     c
 }
 
+/// square-and-multiply chain (msb first) computed with the u128 reference; TLC validates each
+/// step against the schoolbook definition and the real result against the last step.
+fn ext_chain(a: &[u64], e: u64, w: u64) -> (Vec<u8>, Value, Value) {
+    let d = a.len();
+    let bits: Vec<u8> = (0..64).rev().map(|i| ((e >> i) & 1) as u8).collect();
+    let mut acc: Vec<u64> = (0..d).map(|i| (i == 0) as u64).collect();
+    let base: Vec<u64> = a.iter().map(|x| x % P).collect();
+    let mut steps = vec![ws(&acc)];
+    let mut sqs = vec![];
+    for &b in &bits {
+        acc = r_ext_mul(&acc, &acc, w);
+        sqs.push(ws(&acc));
+        if b == 1 {
+            acc = r_ext_mul(&acc, &base, w);
+        }
+        steps.push(ws(&acc));
+    }
+    (bits, Value::Array(steps), Value::Array(sqs))
+}
+
 fn ext_w(d: usize) -> u64 {
     if d == 5 {
         3
@@ -276,10 +296,14 @@ pub fn record(args: &[String]) -> anyhow::Result<()> {
         for t in 0..2 {
             let a: Vec<u64> = (0..d).map(|_| r.gen()).collect();
             if t == 0 {
-                log.put(&json!({"op": "efrob", "d": d, "a": ws(&a), "r": fls(&ext_unary_real(d, &a, "frob", 0).unwrap())}));
+                let (bits, steps, sqs) = ext_chain(&a, P, ext_w(d));
+                log.put(&json!({"op": "echain", "d": d, "a": ws(&a), "e": limbs(P), "bits": bits, "steps": steps, "sqs": sqs,
+                                "r": fls(&ext_unary_real(d, &a, "frob", 0).unwrap())}));
             }
             let e: u64 = [0xFFFF_FFFF_0000_0003u64, 12345][t];
-            log.put(&json!({"op": "eexp", "d": d, "a": ws(&a), "e": limbs(e), "r": fls(&ext_unary_real(d, &a, "exp", e).unwrap())}));
+            let (bits, steps, sqs) = ext_chain(&a, e, ext_w(d));
+            log.put(&json!({"op": "echain", "d": d, "a": ws(&a), "e": limbs(e), "bits": bits, "steps": steps, "sqs": sqs,
+                            "r": fls(&ext_unary_real(d, &a, "exp", e).unwrap())}));
         }
         // generators: W is a non-residue of the right kind: DTH_ROOT^D = 1 is covered by frob
     }
